@@ -490,8 +490,10 @@ def gen_v2_rt(rng, thorough):
         ev = [rng.choice(RT_EVENTS) for _ in range(rng.choice([0, 1, 2]))]
         if r < 0.50:
             steps.append(["conv", ev])          # a fresh conversation: process_events(..., state=None)
-        elif r < 0.58:
+        elif r < 0.55:
             steps.append(["cont", ev])          # the same conversation goes on
+        elif r < 0.58:
+            steps.append(["json"])              # the state travels as JSON (state_to_json / json_to_state), as with a server
         elif r < 0.70:
             steps.append(["reinit"])            # initialize_state again on the flow configs the runtime holds
         elif r < 0.82:
@@ -1198,6 +1200,13 @@ def run_v2rt(case):
                         _ev, inst["state"] = inst["rails"].process_events([_event(n) for n in st[1]], state=inst["state"])
                     else:
                         _ev, inst["state"] = asyncio.run(inst["rt"].process_events([_event(n) for n in st[1]], state=inst["state"]))
+                elif k == "json":
+                    inst = insts[cur]
+                    if inst["state"] is None:
+                        done = "skipped"
+                    else:
+                        from nemoguardrails.colang.v2_x.runtime.serialization import json_to_state, state_to_json
+                        inst["state"] = json_to_state(state_to_json(inst["state"]))
                 elif k == "reinit":
                     inst = insts[cur]
                     compilers.setdefault(inst["cfg"], set()).add(cur)
